@@ -33,3 +33,4 @@ func vAllBytesIn(s string, lo, hi int, set string) bool { return false }
 func vNoBytesIn(s string, lo, hi int, set string) bool  { return false }
 func vHasPrefixS(s, p string) bool                       { return false }
 func vSetAddrMax(n int)                                  {}
+func vNondetText(site string, max int) string            { return "" }
